@@ -21,6 +21,27 @@ Definition str := list Z.
 Definition lit (s : String.string) : str :=
   map (fun a => Z.of_N (Ascii.N_of_ascii a)) (String.list_ascii_of_string s).
 Arguments lit s%string.
+(* the literals used below, evaluated here so that the extracted program does not mention Coq's string type *)
+Definition L_zero : str := Eval compute in lit "0".
+Definition L_one : str := Eval compute in lit "1".
+Definition L_config : str := Eval compute in lit "config".
+Definition L_false : str := Eval compute in lit "false".
+Definition L_inf : str := Eval compute in lit "inf".
+Definition L_infinity : str := Eval compute in lit "infinity".
+Definition L_nan : str := Eval compute in lit "nan".
+Definition L_no : str := Eval compute in lit "no".
+Definition L_off : str := Eval compute in lit "off".
+Definition L_on : str := Eval compute in lit "on".
+Definition L_true : str := Eval compute in lit "true".
+Definition L_yes : str := Eval compute in lit "yes".
+Definition L_True : str := Eval compute in lit "True".
+Definition L_False : str := Eval compute in lit "False".
+Definition L_mh : str := Eval compute in lit "-h".
+Definition L_mmhelp : str := Eval compute in lit "--help".
+Definition L_mmconfig : str := Eval compute in lit "--config".
+Definition L_mc : str := Eval compute in lit "-c".
+Definition L_mtitle : str := Eval compute in lit "-title".
+Definition L_murl : str := Eval compute in lit "-url".
 
 Fixpoint str_eqb (a b : str) : bool :=
   match a, b with
@@ -95,6 +116,11 @@ Definition lower (c : Z) : Z := if (65 <=? c) && (c <=? 90) then c + 32 else c.
 Fixpoint lstrip (s : str) : str :=
   match s with c :: s' => if is_space c then lstrip s' else s | [] => [] end.
 Definition strip (s : str) : str := rev (lstrip (rev (lstrip s))).
+(* int() and float() of an ASCII string skip only the C blanks: \x1c-\x1f are blanks for str.strip but not here *)
+Definition is_cspace (c : Z) : bool := (c =? 32) || ((9 <=? c) && (c <=? 13)).
+Fixpoint clstrip (s : str) : str :=
+  match s with c :: s' => if is_cspace c then clstrip s' else s | [] => [] end.
+Definition cstrip (s : str) : str := rev (clstrip (rev (clstrip s))).
 
 (* str.split(sep) for a one-character separator: always at least one field *)
 Fixpoint split_on (sep : Z) (s : str) (cur : str) : list str :=
@@ -160,7 +186,7 @@ Definition read_sign (s : str) : bool * str :=
 (* int(s), base 10 *)
 Definition parse_int (s : str) : res Z :=
   if negb (forallb is_ascii s) then Unmodelled else
-  let '(neg, body) := read_sign (strip s) in
+  let '(neg, body) := read_sign (cstrip s) in
   match strip_underscores body false with
   | None => Crash ValueError
   | Some b =>
@@ -174,9 +200,9 @@ Definition parse_int (s : str) : res Z :=
 (* float(s): the decimal it denotes, as mantissa * 10^exponent.  inf / nan spellings are not modelled. *)
 Definition parse_float (s : str) : res (Z * Z) :=
   if negb (forallb is_ascii s) then Unmodelled else
-  let '(neg, body) := read_sign (strip s) in
+  let '(neg, body) := read_sign (cstrip s) in
   let lw := map lower body in
-  if str_eqb lw (lit "inf") || str_eqb lw (lit "infinity") || str_eqb lw (lit "nan") then Unmodelled else
+  if str_eqb lw L_inf || str_eqb lw L_infinity || str_eqb lw L_nan then Unmodelled else
   match strip_underscores body false with
   | None => Crash ValueError
   | Some b =>
@@ -289,8 +315,8 @@ Definition is_dict_cls (c : cls) : bool := match c with CDict _ _ => true | _ =>
 Definition bool_of_string (fixed : bool) (s : str) : res bool :=
   if fixed then
     let w := map lower s in
-    if str_eqb w (lit "1") || str_eqb w (lit "yes") || str_eqb w (lit "true") || str_eqb w (lit "on") then Ok true
-    else if str_eqb w (lit "0") || str_eqb w (lit "no") || str_eqb w (lit "false") || str_eqb w (lit "off") then Ok false
+    if str_eqb w L_one || str_eqb w L_yes || str_eqb w L_true || str_eqb w L_on then Ok true
+    else if str_eqb w L_zero || str_eqb w L_no || str_eqb w L_false || str_eqb w L_off then Ok false
     else Crash ValueError
   else Ok (negb (str_eqb s [])).
 
@@ -431,8 +457,8 @@ Definition opt_actions (o : opt) : list (str * act) :=
 
 (* client.main: ArgumentParser (-h/--help), --config/-c, then config.registerArgparse(parser) *)
 Definition all_actions (cfg : config) : list (str * act) :=
-  [(lit "-h", AHelp); (lit "--help", AHelp);
-   (lit "--config", AAppend (lit "config") N1); (lit "-c", AAppend (lit "config") N1)] ++
+  [(L_mh, AHelp); (L_mmhelp, AHelp);
+   (L_mmconfig, AAppend L_config N1); (L_mc, AAppend L_config N1)] ++
   flat_map (fun s => flat_map (fun ko => opt_actions (snd ko)) (snd s)) cfg.
 
 Inductive tokc :=
@@ -597,8 +623,8 @@ Definition update_opt (d : data) (o : opt) : res opt :=
       | Some (DLists ll) =>
           foldR (fun o e =>
                    match e with
-                   | [a; b] => dict_set o (a ++ lit "-title") b
-                   | [a; b; c] => o1 <- dict_set o (a ++ lit "-url") b ;; dict_set o1 (a ++ lit "-title") c
+                   | [a; b] => dict_set o (a ++ L_mtitle) b
+                   | [a; b; c] => o1 <- dict_set o (a ++ L_murl) b ;; dict_set o1 (a ++ L_mtitle) c
                    | _ => Crash ArgumentTypeError
                    end) ll o
       | Some _ => Unmodelled
@@ -616,7 +642,7 @@ Definition fs := list (str * file).
 Definition fs_lookup (f : fs) (name : str) : file := match assoc name f with Some x => x | None => FMissing end.
 
 Definition config_files (f : fs) (d : data) : res (list file) :=
-  match assoc (lit "config") d with
+  match assoc L_config d with
   | None => Ok []
   | Some (DStrs names) => Ok (map (fs_lookup f) names)
   | Some _ => Unmodelled
@@ -641,13 +667,13 @@ Definition fmt_s (v : value) : res str :=
   match v with
   | VStr s => Ok s
   | VInt z => Ok (str_of_Z z)
-  | VBool b => Ok (lit (if b then "True" else "False"))
+  | VBool b => Ok (if b then L_True else L_False)
   | _ => Unmodelled                     (* repr of floats, lists, dicts *)
   end.
 Definition fmt_d (v : value) : res str :=
   match v with
   | VInt z => Ok (str_of_Z z)
-  | VBool b => Ok (lit (if b then "1" else "0"))
+  | VBool b => Ok (if b then L_one else L_zero)
   | VFloat _ _ => Unmodelled
   | _ => Crash TypeError
   end.
